@@ -27,6 +27,11 @@ const internalTransportMTU = defn.MaxNDNPacketSize + 128
 type InternalTransport struct {
 	recvQueue chan []byte // Contains pending packets sent to internal component
 	sendQueue chan []byte // Contains pending packets sent by the internal component
+	// closing is closed by Close. The queues themselves are never closed: the component
+	// (Send), the face's send goroutine (sendFrame) and, through the readvertiser, the
+	// goroutines of other faces write to them while another goroutine closes the face,
+	// and a send on a closed channel panics.
+	closing chan struct{}
 	transportBase
 }
 
@@ -42,6 +47,7 @@ func MakeInternalTransport() *InternalTransport {
 		internalTransportMTU)
 	t.recvQueue = make(chan []byte, faceQueueSize)
 	t.sendQueue = make(chan []byte, faceQueueSize)
+	t.closing = make(chan struct{})
 	t.running.Store(true)
 	return t
 }
@@ -105,12 +111,23 @@ func (t *InternalTransport) Send(netWire enc.Wire, pitToken []byte, nextHopFaceI
 		core.LogWarn(t, "Unable to encode block to send - DROP")
 		return
 	}
-	t.sendQueue <- lpPacketWire.Join()
+	select {
+	case t.sendQueue <- lpPacketWire.Join():
+	case <-t.closing:
+		core.LogDebug(t, "Face has quit - DROP")
+	}
 }
 
 // Receive receives a packet from the perspective of the internal component.
 func (t *InternalTransport) Receive() (enc.Wire, []byte, uint64) {
-	for frame := range t.recvQueue {
+	for {
+		var frame []byte
+		select {
+		case frame = <-t.recvQueue:
+		case <-t.closing:
+			return nil, []byte{}, 0
+		}
+
 		packet, _, err := spec.ReadPacket(enc.NewBufferReader(frame))
 		if err != nil {
 			core.LogWarn(t, "Unable to decode received block - DROP: ", err)
@@ -125,8 +142,6 @@ func (t *InternalTransport) Receive() (enc.Wire, []byte, uint64) {
 
 		return lpPkt.Fragment, lpPkt.PitToken, *lpPkt.IncomingFaceId
 	}
-
-	return nil, []byte{}, 0
 }
 
 func (t *InternalTransport) sendFrame(frame []byte) {
@@ -139,11 +154,22 @@ func (t *InternalTransport) sendFrame(frame []byte) {
 
 	frameCopy := make([]byte, len(frame))
 	copy(frameCopy, frame)
-	t.recvQueue <- frameCopy
+	select {
+	case t.recvQueue <- frameCopy:
+	case <-t.closing:
+		core.LogDebug(t, "Face has quit - DROP")
+	}
 }
 
 func (t *InternalTransport) runReceive() {
-	for frame := range t.sendQueue {
+	for {
+		var frame []byte
+		select {
+		case frame = <-t.sendQueue:
+		case <-t.closing:
+			return
+		}
+
 		if len(frame) > defn.MaxNDNPacketSize {
 			core.LogWarn(t, "Component trying to send too much data - DROP")
 			continue
@@ -156,7 +182,6 @@ func (t *InternalTransport) runReceive() {
 
 func (t *InternalTransport) Close() {
 	if t.running.Swap(false) {
-		close(t.recvQueue)
-		close(t.sendQueue)
+		close(t.closing)
 	}
 }
